@@ -211,6 +211,27 @@ theorem run_stop_of_reach {maxTicks : Nat} {s s' : St} {st : Stop} (h : Reach se
       · right; left; simp [run, hc]
       · simp only [run, hc, if_false, hs]; exact ih he f
 
+/-- a run that stops the way its path ends produced exactly the path's output -/
+theorem run_out_of_reach {maxTicks : Nat} {s s' : St} {st : Stop} (h : Reach seq base mj s s')
+    (he : step seq base mj s' = .error st) (hst : st ≠ .fuel ∧ st ≠ .tooManyTicks) (fuel : Nat)
+    (hr : (run seq base mj maxTicks fuel s).2 = st) : (run seq base mj maxTicks fuel s).1 = s'.out.reverse := by
+  induction h generalizing fuel with
+  | refl s =>
+    cases fuel with
+    | zero => simp [run] at hr; exact absurd hr.symm hst.1
+    | succ f =>
+      by_cases hc : f % 64 = 0 ∧ s.out.length > maxTicks
+      · simp [run, hc] at hr; exact absurd hr.symm hst.2
+      · simp [run, hc, he]
+  | @head s s1 s2 hs hm hr' ih =>
+    cases fuel with
+    | zero => simp [run] at hr; exact absurd hr.symm hst.1
+    | succ f =>
+      by_cases hc : f % 64 = 0 ∧ s.out.length > maxTicks
+      · simp [run, hc] at hr; exact absurd hr.symm hst.2
+      · simp only [run, hc, if_false, hs] at hr ⊢
+        exact ih he f hr
+
 /-- what the caller needs to know about a subroutine stream starting at `t`: entered with any
 state (drum mode off), it plays `T` and arrives at a `FINISH` with all stacks as on entry -/
 def SubPlays (seq : List Nat) (base mj t : Nat) (T : List Tk) : Prop :=
